@@ -12,6 +12,19 @@ accepted/rejected, dtype, IR (up to numbering of generated names) and IR type (c
 imputed types must coincide.  Oracle: implementation only (dtype = strict type of the emitted IR, computed by an independent
 checker; literals can be built, encoded, decoded and pass HailType.typecheck).
 The model of values is the code as repaired by fixes/C36.diff (see findings/C36.json).
+
+Table / MatrixTable level: coq/theories/Typing/TableModel.v — [telab]: what the Table / MatrixTable methods report (row / key /
+globals / col / entry types, built from the dtypes they DECLARE, among them the dtype Table._index declares for a lookup) and
+which relational IR they emit (TableRange, TableKeyBy, TableMapRows, TableMapGlobals, TableFilter, TableLeftJoinRightDistinct,
+TableIntervalJoin with its product flag, MatrixRows/Cols/EntriesTable, MatrixRead of a range, MatrixMapRows/Cols/Entries/Globals,
+MatrixKeyRowsBy, MatrixAnnotateRowsTable with its product flag); [strict_type]: the engine's typ of these nodes (TableIR.scala /
+MatrixIR.scala, the assertions of TypeCheck.scala and of the TableType / MatrixType constructors), every value IR re-typed from
+scratch in the environment its node binds.  Theorems (TableSound.v / Props_C36.v): for ALL programs of the modelled table
+language under the guard [simple_interval_keys], the reported type is the strict type of the emitted IR; without the guard the
+statement is refuted by two concrete programs (open findings).  Tie: X on generated table programs through the real front end
+with a fake context (harness/impl/c36_tables.py; nothing is executed).  Oracle: reported dtypes = tir.typ = type recomputed with
+deep_typecheck on an unshared copy = type under an independent Python checker of the strict relational rules, and every lookup
+dtype = the type its join node gives the joined field.
 """
 import glob
 import json
@@ -27,7 +40,8 @@ import c36_tlang as TL  # noqa: E402
 ID = 'C36'
 SRC = ['hail/python/hail/expr/expressions/base_expression.py', 'hail/python/hail/expr/expressions/typed_expressions.py',
        'hail/python/hail/expr/expressions/expression_typecheck.py', 'hail/python/hail/expr/functions.py',
-       'hail/python/hail/expr/types.py', 'hail/python/hail/ir/ir.py']
+       'hail/python/hail/expr/types.py', 'hail/python/hail/ir/ir.py', 'hail/python/hail/table.py', 'hail/python/hail/matrixtable.py',
+       'hail/python/hail/ir/table_ir.py', 'hail/python/hail/ir/matrix_ir.py', 'hail/python/hail/utils/misc.py']
 COQ_PROPS = 'theories/Typing/Props_C36.v'
 READY = True
 META = dict(
@@ -41,9 +55,32 @@ META = dict(
                'concatenation, in every typing environment: if the front end accepts it with type t, the IR it emits has type t under the '
                'strict IR typing rules (all operand types agree: the front end inserted every conversion); (2) for EVERY Python value '
                'built from None/bool/int/float/str/list/tuple/Struct: if impute_type gives a type, the value satisfies it (ranges, '
-               'struct fields, tuple lengths, recursively). The model agrees with the real front end on every generated case it covers.',
-    level_note='Partial: Table / MatrixTable types are not modelled (their row/key/entry types are read off the IR type by construction; '
-               'what the front end adds is the struct typing of annotate/select/drop, which is modelled at expression level); outside the '
+               'struct fields, tuple lengths, recursively); (3) for EVERY Table / MatrixTable program over range_table, key_by(names), '
+               'annotate, select(names), drop(names), annotate_globals, filter, annotate with ONE lookup r.index(k1.., all_matches) by '
+               'non-key expressions (TableLeftJoinRightDistinct on exact key types; TableIntervalJoin with product = all_matches for an '
+               'interval key indexed by a point), rows()/cols()/entries(), range_matrix_table, annotate_rows/_cols/_entries/_globals, '
+               'key_rows_by/key_cols_by(names), annotate_rows with ONE lookup into an interval-keyed table (MatrixAnnotateRowsTable with '
+               'product = all_matches), with expressions of (1) plus hl.interval and field references: under the guard '
+               'simple_interval_keys, if the front end accepts and reports the table / matrix-table type t (globals, row, key, col, col key, '
+               'entry; built from the dtypes it declares, among them the lookup dtype), the relational IR it emits has type t under the '
+               'engine-side rules (TableIR/MatrixIR.scala typ + TypeCheck.scala + type-constructor assertions), every value IR re-typed '
+               'from scratch in the environment its node binds (C36_table_type_agreement_partial, C36_telab_sound); the unguarded '
+               'statement is refuted by two concrete programs (C36_table_type_agreement_refuted, C36_table_type_agreement_full_fails). '
+               'The models agree with the real front end on every generated case they cover.',
+    level_note='Partial. Table level: the theorem is guarded (two open findings: a matrix-row lookup into a table whose compound key starts '
+               'with an interval, or whose point type is not the type of the matrix\'s first row key field, is accepted and typed by the '
+               'front end but its MatrixAnnotateRowsTable fails the engine\'s TypeCheck). In [telab] the facts the front end has by '
+               'construction (generated names are fresh; key fields survive annotate/select/drop; the re-keyed join table\'s key fields have '
+               'the key expressions\' dtypes) are boolean tests on the computed types, not proved invariants: the run reports a '
+               'disagreement if the model rejects a program the real front end accepts. Checked on the implementation only (oracle: real '
+               'tir.typ, deep recomputation, independent Python strict checker, lookup dtype = join field type; NOT in the Coq model): '
+               'lookups by the key fields themselves (no re-keying, key prefixes), MatrixTable row/col lookups into point-keyed tables '
+               '(MatrixAnnotateRowsTable/ColsTable by key), index_rows/index_cols/index_entries from a table, Table.join (TableJoin), '
+               'key_by with computed keys, filter with a lookup, several lookups in one operation. Outside both: all_matches on a point '
+               'key (collect_by_key), foreign-key joins from MatrixTable rows, index_entries from a MatrixTable, index_globals '
+               '(aggregations / TableGetGlobals / localized entries are not exported: counted as outside), tuple/struct unpacking of '
+               'index arguments, Table.parallelize and every source that needs a backend. Lookups by scalar-only expressions are rejected '
+               'by the front end before typing and are not modelled. Expression level, outside the '
                'model and named as such by the run: compound coercions (arrays/structs/tuples of different numeric element types in '
                'if_else, ==, hl.array), array broadcasting in arithmetic, fold whose zero must be converted to the body type, '
                'annotate with two fields read from the same struct (Let-deduplication), dict/set/float32/locus/call/ndarray values, '
@@ -52,13 +89,24 @@ META = dict(
     partial=True,
 )
 TRUSTED = ['hand model coq/theories/Typing/Model.v tied to the front end only by the correspondence run (X)',
+           'hand model coq/theories/Typing/TableModel.v ([telab] transcribed from table.py / matrixtable.py / utils/misc.py, [strict_type] '
+           'from TableIR.scala / MatrixIR.scala / TypeCheck.scala / MatrixType.scala / TStruct.scala by reading), tied to the front end only by X',
+           'harness/impl/c36_tables.py (fake HailContext so Tables can be BUILT without a backend; builds table programs through the hail API; '
+           'exports reported types, relational IR, tir.typ, and the deep-recomputed type of an UNSHARED copy of the IR: the front end shares '
+           'reference nodes between binders, on which compute_type(deep) raises a spurious assertion; the copy re-implements copy() for the three '
+           'top-level reference classes whose own copy() reads a non-existent attribute) and harness/impl/c36_tlang.py (generator, converter to '
+           'Gallina incl. the syntactic decisions is_key / interval-keyed / outside-the-model, independent strict checker of the relational IR)',
            'harness/impl/c36_types.py (builds programs/values through the hail API, exports dtype / IR / IR type) and '
            'harness/impl/c36_lang.py (generators, conversions to/from Gallina, independent strict IR type checker used by the oracle)',
            'loader: numpy from /verif/.deps, functional shims decorator/parsimonious, stubbed pandas (pd.NA / pd.isna are stubs: pandas '
            'missing values are outside the model); no JVM/backend is started']
 ASSUMPTIONS = ['generated variable names are compared up to renumbering in order of first occurrence (the front end draws them from a counter)',
                'float and string literals are tokens (five fixed values each): their content never influences typing',
-               'the strict IR typing rules stand in for the engine (Scala TypeCheck), which cannot run here']
+               'the strict IR typing rules stand in for the engine (Scala TypeCheck), which cannot run here',
+               'generated field names (__uid_N) are compared up to renumbering in order of first occurrence; top-level references '
+               '(row / global / va / sa / g) are untyped in the real IR and typed by their binder: the model gives them the declared type',
+               'TableIntervalJoin has no TypeCheck case; its rule here (first right key field is an interval of the type of the first left '
+               'key field; root is a new field) is read off LowerTableIR / TStruct.appendKey']
 
 HEADER = ('From HailV Require Import Common.Prelude Typing.Model.\n'
           'Open Scope N_scope.\n'
@@ -233,7 +281,7 @@ def _correspond_tables(ctx, tcases, dis, bump, samples, distinct):
             namess.append(n)
         except TL.OutsideModel as ex:
             bump('table: outside the model (' + str(ex) + ')')
-    model = coq_eval(ctx, THEADER, exprs, shard=120, label='corr-tables') if exprs else []
+    model = coq_eval(ctx, THEADER, exprs, shard=120, label='corrtab') if exprs else []
     shown = 0
     for i, m, n in zip(idx, model, namess):
         c, r = tcases[i]
